@@ -45,6 +45,8 @@ type Tap struct {
 	Writes       []Write
 	// OnDestroy, if set, is evaluated just before a key version is destroyed.
 	OnDestroy func(name string)
+	// OnCall, if set, is evaluated (outside the lock) after the n-th interface call was registered.
+	OnCall func(n int, name string)
 }
 
 // Write is one storage object write (object granularity).
@@ -62,6 +64,12 @@ func (t *Tap) call(name string) error {
 	}
 	t.Calls = append(t.Calls, name)
 	n := len(t.Calls)
+	if t.OnCall != nil {
+		hook := t.OnCall
+		t.mu.Unlock()
+		hook(n, name)
+		t.mu.Lock()
+	}
 	if t.FailAt == n || (t.FailName != "" && t.FailName == name) {
 		return fmt.Errorf("%s: %w", name, errInjected)
 	}
